@@ -83,6 +83,16 @@ CHECKS = {
    note='Compile-only on this little-endian host; __builtin_bswapN trusted; alignment of the typed accesses on real big-endian hardware and '
         'the non-builtin mask-and-shift swap macros are not decided.',
    ref='DESIGN.md 4/C19'),
+ 'C20': dict(
+   technique='who-may-call rules with interprocedural string provenance; structured must-execute (dominance) analysis; partial evaluation of the deletion filter over symbolic characters compared as character cubes with the naming pattern',
+   text='Every file-creating/-deleting libc call in the 14 translator units is enumerated; each write-mode fopen name is traced through '
+        'parameters, struct fields and local copies to a basename() copy of the output path (optionally with .h), to the %c%010u.c '
+        'sprintf whose prefix flows from the literals s/d, or to the literal "datasegments"; inputs are opened read-only; chdir(dirname(output)) '
+        'dominates writer and cleaner; remove() occurs only in the cleaner, which runs only under -c. The set of names that reach remove() '
+        'is computed exactly for every name length 0..20 and equals [sd][0-9]{10}.c in both directions; the writer\'s format, index '
+        'width and buffer size agree with it.',
+   note='Symlinks in the output directory, the behaviour of glob()/basename() and races with other processes are outside the analysis.',
+   ref='DESIGN.md 4/C20'),
 }
 
 NOT_APPLICABLE = {}
